@@ -256,9 +256,9 @@ MUT["C18"] = [
     dict(id="c18-clobber", what="fallback overwrites the accumulated acquisition values (the repaired defect)", path=P_ES, functions=[ESQ],
          old="                z_new = np.random.rand(u_new.shape[0])", new="                z_candidates = np.random.rand(u_new.shape[0])", expect="c18_pool_is_every_survivor"),
     dict(id="c18-no-filter", what="second and later ES generations are not filtered", path=P_ES, functions=[ESQ],
-         old="            u_new = contraints_check(\n                u_new,", new="            u_new = u_new if i > 0 else contraints_check(\n                u_new,", expect="c18_candidates_in_box"),
+         old="            u_new = contraints_check(\n                u_new,", new="            u_new = u_new if i > 0 else contraints_check(\n                u_new,", expect="c18_survivors_in_box"),
     dict(id="c18-z-of-other", what="acquisition values paired with the previous generation", path=P_ES, functions=[ESQ],
-         old="                us_candidates = np.append(\n                    us_candidates, u_new, axis=0\n                )", new="                us_candidates = np.append(\n                    u_new, us_candidates, axis=0\n                )", expect="c18_values_are_acquisition"),
+         old="                us_candidates = np.append(\n                    us_candidates, u_new, axis=0\n                )", new="                us_candidates = np.append(\n                    u_new, us_candidates, axis=0\n                )", expect="c18_pool_is_every_survivor"),
     dict(id="c18-hedge-floor", what="exploration floor mixed in with the wrong weight", path=P_HEDGE, functions=[HQ],
          old="        self.prob = self.prob * (1 - self.n_funs * self.gamma) + self.gamma", new="        self.prob = self.prob * (1 - self.gamma) + self.gamma", expect="probabilities_sum_to_one"),
     dict(id="c18-hedge-nonorm", what="softmax weights not normalised", path=P_HEDGE, functions=[HQ],
@@ -307,6 +307,8 @@ MUT["C16"] = [
          old="                Y = Y[~idx_drop_out]\n", new="", expect="c16_training_set_stays_consistent"),
     dict(id="c16-s2-kept", what="noise vector not shortened with the training set (the repaired defect)", path=P_GPT, functions=[GPTQ + "_robust_gp_fit_"],
          old="                if s2 is not None and not np.isscalar(s2):\n                    s2 = s2[~idx_drop_out]\n", new="", expect="c16_training_set_stays_consistent"),
+    dict(id="c16-mask-from-original", what="outlier mask computed from the original targets (as in the seeded change)", path=P_GPT, functions=[GPTQ + "_robust_gp_fit_"],
+         old="                    idx_drop_out, (Y > np.percentile(Y, 95)).flatten()", new="                    idx_drop_out, (y_train > np.percentile(y_train, 95)).flatten()", expect="no-raise::ValueError@internal[broadcast]"),
     dict(id="c16-init-no-count", what="initial training: failures not counted, same start point retried for ever", path=P_GPT, functions=[GPTQ + "init_and_train_gp"],
          old="        except np.linalg.LinAlgError:\n            training_failures += 1", new="        except TypeError:\n            training_failures += 1", expect="raised_before_any_fit"),
     dict(id="c16-update-uncaught", what="posterior update failure not caught", path=P_GPT, functions=[GPTQ + "local_gp_fitting"],
@@ -385,6 +387,22 @@ MUT["C20"] = [
 
 def scan_c20(index, registry):
     return scans.options_structure(index, registry) + scans.global_state_frame(index, registry)
+
+
+P_FLOG = "pybads/function_logger/function_logger.py"
+MUT["C09"] = [
+    dict(id="c09-es-empty-index", what="empty survivor set indexed (the repaired defect)", path=P_ES, functions=[ESQ],
+         old="        if us.shape[0] == 0:\n            # every candidate was removed by the filter: empty search set\n            return us, z\n", new="", expect="no-raise::IndexError"),
+    dict(id="c09-u-search-unbound", what="u_search not set for an empty search set (the repaired defect)", path=P_BADS, functions=[B + "._search_step_"],
+         old="            u_search = None\n            y_search = self.yval", new="            y_search = self.yval", expect="no-raise::UnboundLocalError"),
+    dict(id="c09-no-empty-branch", what="search step without the empty-set branch", path=P_BADS, functions=[B + "._search_step_"],
+         old="        else:\n            # Search set is empty\n            u_search = None\n            y_search = self.yval\n            f_mu_search = self.fval\n            f_sd_search = 0\n            search_dist = 0\n",
+         new="", expect="no-raise::UnboundLocalError"),
+    dict(id="c09-empty-poll-set", what="poll loop keeps going with an emptied poll set (as in the seeded change)", path=P_BADS, functions=[B + "._poll_step_"],
+         old="            if u_poll is None or u_poll.size == 0:\n                break", new="            if u_poll is None:\n                break", expect="no-raise::ValueError@internal[empty-argmin]"),
+    dict(id="c09-pool-first-gen", what="candidate pool appended to before it exists", path=P_ES, functions=[ESQ],
+         old="            if i == 0:\n                us_candidates = u_new.copy()", new="            if i == 1:\n                us_candidates = u_new.copy()", expect="no-raise::UnboundLocalError"),
+]
 
 
 def scan_c14(index, registry):
@@ -599,6 +617,23 @@ PROPS = {
                     "snapshots compared, caller's dict and arrays compared before/after. Deductive part: structural obligations over the real source only (stores of defaults are guarded by the "
                     "protected-names test, user names are recorded, unknown names raise, order of loading and validation in the constructor, no in-place store through a parameter that may alias "
                     "a caller-owned array, no module-level or class-level writes in the library).",
+    ),
+    "C09": dict(
+        level="other",
+        native=[dict(name="panel-rare-histories", script="panel.py", args_quick=["--prop", "C09", "--runs", 10, "--rare", 30], args_thorough=["--prop", "C09", "--runs", 60, "--rare", 200, "--gpfaults", 30], timeout=3000),
+                dict(name="es-search-bounded", script="es_model.py", args_quick=["--runs", 150, "--mask", 24], args_thorough=["--runs", 1500, "--mask", 64], timeout=1800)],
+        replay=dict(script="panel.py", args=["--prop", "C09", "--runs", 12, "--rare", 40], timeout=3000),
+        functions=[ESQ, HQ, B + "._search_step_", B + "._poll_step_"],
+        mutants=MUT["C09"],
+        explanation="Whole-program crash freedom over NumPy shape semantics and gpyreg is out of reach of function contracts. Decided deductively (a stated subset): in ESSearch.__call__, "
+                    "ESSearchHedge.__call__ and _search_step_ no IndexError (opt-in bounds semantics for scalar indexing) and no UnboundLocalError (opt-in definedness tracking of locals) can "
+                    "occur, for every outcome of the candidate filter including 'nothing survived' in any generation, and the only exception classes that leave them are the declared ones; "
+                    "in _poll_step_ np.argmin is never applied to an emptied poll set (opt-in semantics: arg-reduction of an empty array raises inside NumPy). "
+                    "Not modelled (so only observed): the kind of a returned value (a 1-element array and a scalar are the same number in the encoding - the repaired merged-repeat defect was "
+                    "found by the bounded layer only), KeyError on dictionaries, AttributeError "
+                    "from value kinds (Python float vs NumPy scalar), shape errors raised by NumPy / gpyreg. BOUNDED: full runs in all noise modes with rare internal histories forced "
+                    "(tiny feasible region, repeated points under specified noise in D = 1, a non-finite GP prediction at the k-th single-point query, runs ending in their first iteration, "
+                    "budgets close to the initial design, failing GP fits in the thorough tier) must return an OptimizeResult.",
     ),
     "C04": dict(
         level="proof",
